@@ -74,7 +74,7 @@ const NDecoChoices = 9
 
 // htmlFlagMask: bit0 row-class generator, bit1 caption/id/class, bit3 a
 // TemplateName shared by every wrapper that sets it.
-const htmlFlagMask = 1 | 2 | 8
+const htmlFlagMask = 1 | 2 | 4 | 8 // bit 2 (4): text through auto wraps the caller's reused wrapper (C14 histories only)
 
 const unknownDecoName = "no-such-decoration"
 
@@ -124,6 +124,12 @@ func (w *World) wrapperFor(spec RenderSpec) (renderer, bool) {
 		}
 		return nil, false
 	case ViaAuto:
+		if spec.Flags&4 != 0 && spec.Format%NFormats == FmtText && w.reuseText != nil {
+			// auto is handed the caller's own text wrapper instead of the bare table:
+			// what auto selects for ITS render must not re-decorate that wrapper
+			w.probe("auto_around_the_callers_wrapper")
+			return auto.Wrap(w.reuseText, w.autoStyle(spec)), true
+		}
 		return auto.Wrap(t, w.autoStyle(spec)), true
 	case ViaAutoFn:
 		return nil, false
